@@ -1,9 +1,10 @@
-from . import streams_cavity, streams_collapse, cli
+from . import streams_cavity, streams_collapse, cli, streams_mixed
 
 ID = 'C01'
-PROPS_MODULE = ['Refine.Props.C01', 'Refine.Props.C13Collapse']
+PROPS_MODULE = ['Refine.Props.C01', 'Refine.Props.C13Collapse', 'Refine.Props.C02Mixed']
 STREAMS = [streams_cavity.OPS, streams_cavity.BAD, streams_cavity.VALID,
-           cli.ADAPT, streams_cavity.ADAPT_PASSES, cli.ADAPT_MPI, streams_collapse.STARS, streams_collapse.RUN]
+           cli.ADAPT, streams_cavity.ADAPT_PASSES, cli.ADAPT_MPI, streams_collapse.STARS, streams_collapse.RUN,
+           streams_mixed.FN, streams_mixed.RUN, streams_mixed.ADAPT_MIXED, streams_mixed.ADAPT_MIXED_MPI]
 
 EXPLANATION = (
     'Proved in Lean for the executable model of the cavity machine of src/ref_cavity.c, for every abelian group G '
@@ -44,9 +45,33 @@ EXPLANATION = (
     'tets or one tet + one tri, the signed boundary chain is zero (tris oriented like the tet face they close), '
     'volume conserved exactly when only tets change, every new tet of a visible cavity has volume > 1e-15. '
     'End-to-end: `ref adapt` / `refmpi adapt` on generated 2-D and 3-D meshes x metrics x pass counts (0 and 1 always '
-    'present; strongly anisotropic 2-D requests included), output judged by the independent C01 validity oracle.')
+    'present; strongly anisotropic 2-D requests included), output judged by the independent C01 validity oracle.'
+    ' Mixed-element meshes (work package `mixed`, Props/C02Mixed.lean on Model/Mixed.lean: a mesh with ALL cell groups, '
+    'vertex validity and coordinates; guarded ref_split_edge / ref_collapse_edge / ref_swap_tri_edge / vertex move / '
+    'cavity replacement as operators on it): splitEdgeMixed_sound / swapEdgeMixed_sound / collapseEdgeMixed_sound / '
+    'nodeTouchesMixed_sound / smoothTetFrozen_sound / cavityFormGate_sound / cavityFaceGate_sound give the exact '
+    'criterion of each guard (split/swap: blocked iff a qua/pyr/pri/hex has the edge in its generated e2n table -- '
+    'splitEdgeMixed_misses_quad_diagonal: weaker than "lies on the cell"); mixed_frame: over ANY history of guarded '
+    'operations the qua/pyr/pri/hex groups and the validity and coordinates of all their vertices are unchanged '
+    '(mixed_frame_gated: unconditionally when the grid has a pyramid or prism; otherwise under the stated CavitySafe side '
+    'condition of an ungated cavity replacement); mixed_interface_conforming_split / _swap / mixed_interface_history: every '
+    'triangular face of a pyramid / prism that had a tet face or boundary tri on it still has one after the guarded '
+    'operation and after any history of guarded splits, 2-D swaps and vertex moves (_collapse_partial: given the simplicial '
+    'neighbour across the removed cell); mixed_interface_exact_split: the guarded split keeps the NUMBER of tets and of '
+    'boundary tris on each such face, i.e. the truth value of the C01 statement there (faceConforming, the predicate the '
+    'driver evaluates on every accepted operation of a real run); mixed_interface_conforming_split_2d: no hanging node on '
+    'a quadrilateral side of a planar grid. Tied by streams mixed_fn (diff: local '
+    'configurations with 0..3 neighbours of each kind in every table position, incl. pyramids-without-prisms, '
+    'prisms-without-pyramids, hexes only), mixed_smooth (validate: ref_smooth_tet_improve and both interior loops of '
+    'ref_smooth_pass), mixed_run (validate: hooked real passes on hex+pyramid+tet, prism-layer+tet, all-kinds, hex-island and planar tri+quad grids; '
+    'frozen cells compared with the initial ones at EVERY hook event) and the end-to-end oracle cli_adapt_mixed.')
 
 ASSUMPTIONS = [
+    'mixed-element part: the cavity machine itself is not re-modelled on grids with non-simplex cells (only its gates and the '
+    'cell / vertex bookkeeping of ref_cavity_replace); exactly-one-neighbour on a frozen triangular face is proved for the split '
+    'only (swap: existence; collapse: existence under the stated neighbour hypothesis; cavity: not at all) and otherwise checked '
+    'by the run-level and end-to-end oracles; the 2-D swap next to quadrilaterals is tied (function and run level) but has no '
+    'interface theorem; ref_swap_pass (3-D two-face tet removal) is not used by ref adapt and is not covered',
     'collapse by substitution (ref_collapse_edge): chain-level conformity, no duplicate cell under the manifold guard, '
     'volume > min_volume of every created tet under the quality guard, and "ref_collapse_to_remove_node1 applies '
     'only guarded collapses" are PROVED in Props/C13Collapse (collapse_conforming, collapse_history_conforming, '
